@@ -186,6 +186,9 @@ def run(ctx):
 
 
 def replay(ctx, data):
+    from props import schemax as _sx
+    if isinstance(data, dict) and _sx.replay_family_build(ctx, data):
+        return
     winit()
     chain = data['chain']
     sch = _W['S']['std']
